@@ -384,7 +384,7 @@ def worker(args):
 def run(chk):
     quick = chk.tier == 'quick'
     P = (chk.prop, chk.tier)
-    NB = 3 if quick else 6
+    NB = 3 if quick else 8
     cases = []
     for n in range(0, NB + 1):
         cases.append(P + (('getitem', n),))
@@ -398,12 +398,12 @@ def run(chk):
         cases.append(P + (('from_buffer', 'open', isz),))
         cases.append(P + (('from_buffer', 'fixed', isz),))
     cases.append(P + (('from_buffer', 'pointer', 4),))
-    cases.append(P + (('memmove', 4 if quick else 6),))
+    cases.append(P + (('memmove', 4 if quick else 8),))
     chk.bounds = {'buffer size': '0..%d bytes (every size explored separately), any content' % NB,
                   'index / slice bounds': 'any Python int or None; step None, 1, 2, -1',
                   'right-hand side': 'bytes of length 0..3 (index) / 0..size+1 (slice), any content',
                   'from_buffer': 'any exporter byte length, exporter item size 1..64, declared length 0..2^40, item sizes {1,2,4,8,12}',
-                  'memmove': 'every (dst, src, n) inside a %d-byte region, cdata or Python-buffer destination' % (4 if quick else 6)}
+                  'memmove': 'every (dst, src, n) inside a %d-byte region, cdata or Python-buffer destination' % (4 if quick else 8)}
     chk.outside = ['buffers longer than the bound (the code has no size-dependent branches beyond the clamping)',
                    'non-contiguous exporters, PyObject_GetBuffer itself', 'ffi.buffer() size derivation (b_buffer_new)']
     chk.assume('CPython contracts: PySlice_Unpack/PySlice_AdjustIndices as in CPython 3.12, PyObject_GetBuffer/PyBuffer_Release '
